@@ -206,3 +206,75 @@ def run_family(problems, opts=None, procs=16, tlc_timeout=3000, fresh=False):
             "stats": {"enum": st_enum, "trace": st_trace, "t_enum": round(t_enum, 1),
                       "t_impl": round(t_impl, 1), "t_trace": round(t_trace, 1),
                       "n_traces": len(traces)}}
+
+
+# ---------------------------------------------------------------------------------------------
+# problems beyond the exhaustive bounds: V(P) is SAMPLED by TLC in simulation mode
+def _work_large(idx):
+    import z3
+    import admitted as A
+    import build as B
+    import project as PJ
+    p, Vs, opts = _FAMILY[idx]
+    out = {"id": p["id"], "lost": [], "n_lost": 0, "checked_pins": 0, "traces": [], "errors": [], "replayed": 0,
+           "replay_mismatch": [], "inconclusive": 0, "witnesses": [], "buf_bad": [], "ind_bad": [], "checked_inds": 0,
+           "checked_bufs": 0, "outside_window": 0, "default": None}
+    rnd = random.Random(opts.get("seed", 0) * 104729 + p["id"])
+    try:
+        b, s = A.initialized_solver(p)
+        sample = list(Vs.values())
+        rnd.shuffle(sample)
+        pick = {tlc.key_of(v): v for v in sample[:opts.get("pins_per_problem", 40)]}
+        lost, inc, chk = A.completeness(p, b, s, pick)
+        out["lost"], out["n_lost"], out["checked_pins"], out["inconclusive"] = lost[:50], len(lost), chk, inc
+        lost_keys = {tlc.key_of(v) for v in lost}
+        for v in [x for x in pick.values() if not x.get("unspec") and tlc.key_of(x) not in lost_keys][:opts.get("replay_per_problem", 2)]:
+            b3, s3, sol = A.solve_pinned(p, v)
+            out["replayed"] += 1
+            if not sol:
+                out["replay_mismatch"].append({"v": v, "got": None})
+            else:
+                sv = PJ.from_solution(p, sol)
+                out["traces"].append({"kind": "pinned", "trace": PJ.to_trace(p, idx + 1, sv, sol),
+                                      "solution": json.loads(sol.to_json(compact=True))})
+        # code -> spec: whatever the library returns on its own
+        for kw in ({}, {"random_values": True}):
+            b4 = B.build(p)
+            s4 = B.make_solver(b4, **kw)
+            with B.silence():
+                sol = s4.solve()
+            k = 0
+            if not kw:
+                out["default"] = {"solved": bool(sol), "V": len(Vs), "V_must": sum(1 for v in Vs.values() if not v.get("unspec"))}
+            while sol and k < opts.get("alternatives", 4):
+                sv = PJ.from_solution(p, sol)
+                out["traces"].append({"kind": "returned" + ("-random" if kw else "") + (f"-alt{k}" if k else ""),
+                                      "trace": PJ.to_trace(p, idx + 1, sv, sol), "solution": json.loads(sol.to_json(compact=True))})
+                k += 1
+                with B.silence():
+                    sol = s4.find_another_solution()
+    except Exception as ex:
+        out["errors"].append({"stage": "large", "exc": f"{type(ex).__name__}: {ex}", "tb": traceback.format_exc(limit=8)})
+    return out
+
+
+def run_large(problems, opts=None, procs=16, num=3000, depth=140, tlc_timeout=1200):
+    global _FAMILY
+    opts = opts or {}
+    V, st_sim = tlc.simulate_V(problems, num=num, depth=depth, seed=opts.get("seed", 0) + 1, timeout=tlc_timeout)
+    import processscheduler  # noqa: F401
+    _FAMILY = [(p, V[p["id"]], opts) for p in problems]
+    ctx = mp.get_context("fork")
+    with ctx.Pool(min(procs, max(1, len(problems)))) as pool:
+        results = pool.map(_work_large, range(len(problems)), chunksize=1)
+    traces, owners = [], []
+    for ri, r in enumerate(results):
+        for ti, t in enumerate(r["traces"]):
+            traces.append(t["trace"])
+            owners.append((ri, ti))
+    verdicts, st_trace = tlc.validate_traces(problems, traces, timeout=tlc_timeout) if traces else ([], {"generated": 0, "distinct": 0, "wall_s": 0})
+    for (ri, ti), vd in zip(owners, verdicts):
+        results[ri]["traces"][ti]["verdict"] = vd
+    return {"problems": problems, "V": V, "results": results,
+            "stats": {"enum": st_sim, "trace": st_trace, "t_enum": st_sim["wall_s"], "t_impl": 0, "t_trace": st_trace["wall_s"],
+                      "n_traces": len(traces)}}
